@@ -55,6 +55,15 @@ var props = map[string]propCfg{
 	"C04": {Level: "exploration", DeathIsViolation: true,
 		Quick:    tierCfg{Checks: 800, Shards: 16, Guard: 15 * time.Minute},
 		Thorough: tierCfg{Checks: 32000, Shards: 16, Guard: 120 * time.Minute}},
+	"C05": {Level: "exploration", DeathIsViolation: true,
+		Quick:    tierCfg{Checks: 1200, Shards: 16, Guard: 15 * time.Minute},
+		Thorough: tierCfg{Checks: 48000, Shards: 16, Guard: 120 * time.Minute}},
+	"C06": {Level: "exploration", DeathIsViolation: true,
+		Quick:    tierCfg{Checks: 1200, Shards: 16, Guard: 15 * time.Minute},
+		Thorough: tierCfg{Checks: 48000, Shards: 16, Guard: 120 * time.Minute}},
+	"C09": {Level: "exploration", DeathIsViolation: true,
+		Quick:    tierCfg{Checks: 1200, Shards: 16, Guard: 15 * time.Minute},
+		Thorough: tierCfg{Checks: 48000, Shards: 16, Guard: 120 * time.Minute}},
 	"C07": {Level: "exploration", DeathIsViolation: true,
 		Quick:    tierCfg{Checks: 1600, Shards: 16, Guard: 15 * time.Minute},
 		Thorough: tierCfg{Checks: 64000, Shards: 16, Guard: 120 * time.Minute}},
